@@ -38,6 +38,7 @@ def product_on_state(s, sidx, text='hostile'):
 
 
 def run(s):
+    K.suite_workload(s)
     n_states, n_hist = (24, 200) if s.tier == 'quick' else (600, 5000)
     for i in range(n_states):
         if s.mine(i):
